@@ -116,3 +116,61 @@ Theorem C20_field_inside_record : forall u, valid u ->
   RECSZ * (u - 1) <= Z.of_nat (money_pos u) /\ Z.of_nat (money_pos u) + 4 <= RECSZ * u.
 Proof. exact money_pos_in_record. Qed.
 Print Assumptions C20_field_inside_record.
+
+(* ---- writes that are refused, disagreement that is already there (Model/C20.v: xop, xstep, xrun) ----
+   XOk o = the call o goes through; XRefused o = the same call while .PASSWDS refuses the write (file away / device
+   full): an error comes back, nothing is written — SetUMoney has already stored the balance into the segment;
+   XPlantShm / XPlantFile = the segment's balance / the record's Money field is changed alone (a process that died
+   between the two stores; a restore of the file). xspec_run: arithmetic follows the segment, and a set d of dirty slots
+   is kept: a refused set/credit/debit and a planted value make the slot dirty, every SUCCESSFUL set / credit / debit /
+   whole-record write-back makes it clean. xhist_ok = valid slots, int32 amounts, sums inside int32.
+
+   For all such histories from an agreeing state, after EVERY step, on every valid slot: segment = MoneyOf = arithmetic,
+   and the Money field of the record is equal too on every slot that is not dirty; every call returns what the
+   specification says (the arithmetic value, or the error for a refused write). In particular a successful operation
+   always writes the file: it cannot leave its slot dirty. *)
+Theorem C20_resync_histories : forall h s b n, Agree s b -> xhist_ok b (fun _ => false) h ->
+  let h' := firstn n h in
+  let s' := fst (xrun s h') in let b' := fst (fst (xspec_run b (fun _ => false) h')) in
+  let d' := snd (fst (xspec_run b (fun _ => false) h')) in
+  (forall u, valid u ->
+     shm s' (u - 1) = b' u /\ money_of s' u = Ok (b' u) /\ (d' u = false -> money_field (file s') u = b' u)) /\
+  snd (xrun s h') = snd (xspec_run b (fun _ => false) h').
+Proof. exact resync_every_step. Qed.
+Print Assumptions C20_resync_histories.
+
+(* the repair in one call, with NO agreement between the file and the segment assumed for any slot d marks: a successful
+   SetUMoney / DeUMoney / passwdSyncUpdate on slot u leaves segment = Money field of the record = the value returned
+   = m for a set, the saturating sum computed from the segment's balance for a credit/debit, the segment's balance for a
+   write-back — whatever .PASSWDS held before *)
+Theorem C20_write_resyncs : forall s b d x u, AgreeExcept s b d -> xop_ok b x ->
+  (exists m, x = XOk (OpSet u m)) \/ (exists m, x = XOk (OpDe u m)) \/ (exists rec, x = XOk (OpRewrite u rec)) ->
+  let s' := fst (xstep s x) in let b' := fst (fst (xspec_step b d x)) in
+  shm s' (u - 1) = b' u /\ money_field (file s') u = b' u /\ snd (xstep s x) = OVal (b' u) /\
+  b' u = match x with XOk (OpSet _ m) => m | XOk (OpDe _ m) => de_value b u m | _ => b u end.
+Proof. exact write_resyncs. Qed.
+Print Assumptions C20_write_resyncs.
+
+(* ---- any table size (Model/C20.v: gst, g_step, g_run) ----
+   The same Go functions on a table of N slots, .PASSWDS abstracted to the Money field of each record (bytes and codec:
+   the theorems above; the record layout is the same in both builds). For EVERY table size 0 < N < 2^31, every history
+   as above, after every step, on every slot 1..N: segment = MoneyOf = arithmetic = Money field unless dirty. *)
+Theorem C20_any_table_size : forall N, 0 < N < 2147483648 -> forall h s b d n, GAgree N s b d -> g_hist_ok N b d h ->
+  let h' := firstn n h in
+  let s' := fst (g_run N s h') in let b' := fst (fst (xspec_run b d h')) in let d' := snd (fst (xspec_run b d h')) in
+  (forall u, 1 <= u <= N ->
+     gshm s' (u - 1) = b' u /\ g_money_of N s' u = Ok (b' u) /\ (d' u = false -> gfld s' u = b' u)) /\
+  snd (g_run N s h') = snd (xspec_run b d h').
+Proof. exact any_size_every_step. Qed.
+Print Assumptions C20_any_table_size.
+
+(* ... instantiated at MAX_USERS of the production build (-tags docker; g_size 1 is regenerated from
+   ptttype/01-config-docker.go): all 2 000 000 slots, 65 537 and the last one like the first *)
+Theorem C20_production_table : forall h s b d n, GAgree (g_size 1) s b d -> g_hist_ok (g_size 1) b d h ->
+  let h' := firstn n h in
+  let s' := fst (g_run (g_size 1) s h') in let b' := fst (fst (xspec_run b d h')) in let d' := snd (fst (xspec_run b d h')) in
+  (forall u, 1 <= u <= 2000000 ->
+     gshm s' (u - 1) = b' u /\ g_money_of (g_size 1) s' u = Ok (b' u) /\ (d' u = false -> gfld s' u = b' u)) /\
+  snd (g_run (g_size 1) s h') = snd (xspec_run b d h').
+Proof. exact production_size_every_step. Qed.
+Print Assumptions C20_production_table.
